@@ -404,7 +404,7 @@ def compile_compare_op_expression(compiler, expr, root, args):
     return ret + asty.Compare(expr, left=exprs[0], ops=ops, comparators=exprs[1:])
 
 
-@pattern_macro("chainc", [FORM, many(SYM + FORM)])
+@pattern_macro("chainc", [FORM, oneplus(SYM + FORM)])
 def compile_chained_comparison(compiler, expr, root, arg1, args):
     ret = compiler.compile(arg1)
     arg1 = ret.force_expr
@@ -486,7 +486,10 @@ def compile_augassign_expression(compiler, expr, root, target, values):
         )
 
     op = a_ops[root][0]
+    target_model = target
     target = compiler._storeize(target, compiler.compile(target))
+    if not isinstance(target, (ast.Name, ast.Attribute, ast.Subscript)):
+        compiler._syntax_error(target_model, f"Can't use this as the target of `{root}`")
     ret = compiler.compile(values[0])
     return ret + asty.AugAssign(expr, target=target, value=ret.force_expr, op=op())
 
@@ -584,6 +587,9 @@ def compile_assign(
            for t in (target if chained else [target])]
 
         if ann is not None:
+            if not isinstance(
+                    st_targets[0], (ast.Name, ast.Attribute, ast.Subscript)):
+                compiler._syntax_error(target, "Can't annotate this")
             ann_result = compiler.compile(ann)
             result = ann_result + result
 
@@ -613,7 +619,7 @@ def compile_assign(
 @pattern_macro(((3, 12), "deftype"), [maybe(type_params), SYM, FORM])
 def compile_deftype(compiler, expr, root, tp, name, value):
     return asty.TypeAlias(expr,
-       name = asty.Name(name, id = mangle(name), ctx = ast.Store()),
+       name = asty.Name(name, id = mangle(compiler._nonconst(name)), ctx = ast.Store()),
        value = compiler.compile(value).force_expr,
         **digest_type_params(compiler, tp))
 
@@ -2099,6 +2105,8 @@ def compile_import(compiler, expr, root, is_lazy, entries):
         else:
             node = asty.ImportFrom
             names = []
+            if not assignments:
+                compiler._syntax_error(entry[1], "`import` needs at least one name in the list")
             for k, v in assignments:
                 compiler.scope.define(mangle(v))
                 names.append(asty.alias(
@@ -2133,8 +2141,9 @@ def compile_import(compiler, expr, root, is_lazy, entries):
 @pattern_macro("assert", [FORM, maybe(FORM)])
 def compile_assert_expression(compiler, expr, root, test, msg):
     test = compiler.compile(test)
-    if msg:
-        msg = compiler.compile(msg)
+    # `msg` is a model, and a model such as `[]` is falsy, so compare to
+    # `None`.
+    msg = None if msg is None else compiler.compile(msg)
 
     if not (test.stmts or (msg and msg.stmts)):
         return asty.Assert(expr, test=test.force_expr, msg=msg and msg.force_expr)
